@@ -11,7 +11,9 @@ CHECKS = {
              '12 (15) shapes, ~45 index expressions, all operators with all constant shapes/dtypes/sparse, is built on the '
              'real rsome classes and compared with NumPy on every basis assignment, which decides the affine/bi-affine '
              'function for all variable values. Right level: the defects live in shape/index branch selection, which the '
-             'small-scope product covers by construction.',
+             'small-scope product covers by construction. A history family re-uses an intermediate object (index / sum, result '
+             'discarded) before the chain continues, so lazily built caches carried between objects are exercised; operands are '
+             'snapshotted and must keep their coefficients.',
         note='Trusted: NumPy semantics as reference, reading of Affine.linear/const and RoAffine.raffine/affine as the '
              'denotation. Bounds: rank<=3 (4 thorough), depth<=2 (3). RSOME raising where NumPy works is allowed (unsupported).',
         design='DESIGN.md 4/C05'),
@@ -21,7 +23,8 @@ CHECKS['C01'] = dict(
     technique='exhaustive enumeration of robust model specs from a grammar on the real rsome.ro; independent worst case over exact vertex lists / boundary lattices',
     text='Every RoSpec of a bounded grammar (36 set kinds incl. intersections and lower-dimensional sets, attachments via '
          'minmax/forall, all LDR dependency masks and declaration styles, constraint surface forms, senses, objective forms, '
-         'dimensions 1-3, solver interfaces) is built and solved on the real code; the returned decisions are substituted '
+         'dimensions 1-3, solver interfaces, scaled atoms c*f<=c*r, mirrored dependence on the random components, every way of '
+         'handing a set to minmax/forall, piecewise functions written with offsets / scalings, late random variables) is built and solved on the real code; the returned decisions are substituted '
          'into the spec and each constraint is evaluated on reference member points of its set (exact vertices / dense '
          'boundary lattice with exact facet corners). A positive value at a member point is a real violation, so alarms are sound.',
     note='Trusted: closed-form membership tests, NumPy, solver tolerances (2e-6 LP, 2e-5 ECOS, 2e-4 Gurobi). Bounds: d<=3, nx=2, '
@@ -42,7 +45,8 @@ CHECKS['C03'] = dict(
     text='Every DroSpec of a bounded grammar (1-3 (4) scenarios with integer or unordered string labels, 7 support kinds per '
          'scenario incl. Wasserstein-style lifted supports, 9 expectation-set structures on events (sub-events, overlapping, '
          'non-contiguous), 5 probability sets, every set partition x affine mask x declaration order of the decisions, '
-         'E / piecewise / bi-affine / robust objectives, E- and robust rows with default, forall(ambiguity) and '
+         'E / piecewise / bi-affine / robust objectives, E-, robust-, equality- and piecewise rows (also written with offsets inside / outside E), '
+         'separate adaptive variables, mirrored dependence, scaled supports, with default, forall(ambiguity) and '
          'forall(support) attachments) is built and solved on the real code; the returned decisions are read back through the '
          'public expression-call API and the worst-case expectation of the objective and of every E-row over the declared '
          'ambiguity set is computed by an independent LP over distributions on support vertices.',
